@@ -30,7 +30,7 @@ func isSnapshotCall(fn *types.Func, _ *ast.CallExpr) bool {
 func runC14(c *Ctx) {
 	c.Rule("R14a", "no Snapshot implementation reaches a statement-execution primitive (database/sql ExecContext/Exec) or Driver.ApplyChanges from its body (the returned closure excluded): refusing a non-empty database leaves it untouched", 3)
 	c.Rule("R14b", "at every call site of Snapshot the error is checked and, on the success edge, a defer invoking the returned restore function precedes every return and every call", 4)
-	c.Rule("R14c", "in every snapshot-holding function each call that may write to the database is dominated by the deferred restore; functions of the package that write to the database are called only from snapshot-holding functions or other such writers", 6)
+	c.Rule("R14c", "in every snapshot-holding function each call that may write to the database is dominated by the deferred restore; functions of the package that write to the database are called only from snapshot-holding functions or other such writers", 4)
 	c.Rule("R14d", "no directory-mutating call (WriteFile, WriteSumFile, WriteCheckpoint, CopyFiles, os.WriteFile/Remove/Rename) is reachable from Executor.Replay through sql/migrate code, except CopyFiles on a MemDir allocated in the same function", 1)
 	c.Rule("R14e", "a deferred closure that reports the restore error assigns it to a named result of the enclosing function (otherwise the error is lost)", 4)
 
